@@ -4,6 +4,7 @@ import (
 	"fmt"
 	"sort"
 	"strings"
+	"unicode"
 
 	"github.com/grafana/cog/internal/ast"
 	"github.com/grafana/cog/internal/orderedmap"
@@ -118,6 +119,9 @@ func identifierCharacters(name string) string {
 			return char
 		case char == '_', char == '-', char == ' ', char == '$':
 			// understood by the case conversions (or trimmed)
+			return char
+		case unicode.IsLetter(char):
+			// `été`: identifiers are not limited to ASCII letters
 			return char
 		}
 
